@@ -548,6 +548,29 @@ def casadi_to_sympy_dir(ctx, n_trees, depth):
         ctx.tally("casadi_to_sympy:extreme_constant")
         if st == "bad":
             ctx.violation("casadi_to_sympy_value", "OP_CONST", {"constant": cval, **det})
+    # ... also when a matrix is converted: every entry uses (and fills) the caller's table
+    symsM = {}
+    try:
+        sm = cts(ca.vertcat(ca.horzcat(V[0] * V[1], ca.sin(V[2])), ca.horzcat(V[1] + 2, V[0])), symsM)
+        s_after = cts(V[0] - V[2], symsM)
+        free_m = set(sm.free_symbols)
+        conds = [len(symsM) == 3, {str(x_) for x_ in free_m} == {str(v_) for v_ in symsM.values()}, s_after.free_symbols <= set(symsM.values())]
+        okm = all(conds)
+        detm = {"table": str(symsM), "matrix": str(sm)[:200], "conditions(table has 3 entries, matrix symbols are the table's, later conversion reuses them)": conds, "free": sorted(str(x_) for x_ in free_m), "vals": sorted(str(v_) for v_ in symsM.values())}
+        # a pre-filled table is honoured: the caller's symbol (with its assumptions) appears in the result
+        pre = {}
+        cts(V[0] + 1, pre)
+        key0 = list(pre)[0]
+        mine = sp.Symbol("theta_user", positive=True)
+        pre[key0] = mine
+        sm2 = cts(ca.vertcat(V[0] * 2, V[0] + V[1]), pre)
+        okm = okm and mine in set(sm2.free_symbols)
+        detm["prefilled"] = str(sm2)[:120]
+    except Exception as ex:
+        okm, detm = True, {"rejected": type(ex).__name__}
+        ctx.count("c2s_matrix_table_rejected")
+    ctx.tally("casadi_to_sympy:matrix_with_table")
+    ctx.check("casadi_to_sympy_symbol_table", "matrix_with_shared_table", okm, detm)
     # symbol table: the same parameter always maps to the same sympy symbol within one table
     syms = {}
     s1 = cts(V[0] + V[1], syms)
@@ -773,6 +796,21 @@ def sympy_to_casadi_dir(ctx, n_trees, depth):
                         st, _, _ = s2c_agree(stc, M[i, j], names, pts, None, {})
                         mech = sp_mechanism(minimal_sp(stc, M[i, j], names, pts, None, {})) if st == "bad" else "matrix_layout"
                         ctx.violation("sympy_to_casadi_value", mech, {"expr": str(M)[:300], "element": [i, j], "point": pt, "sympy_value": ref, "casadi_value": float(val[i, j])})
+    # symbols that are not plain Symbols: two Dummy("t") are different variables that print alike -- either rejected or kept apart
+    d1, d2 = sp.Dummy("t"), sp.Dummy("t")
+    for dname, e in (("two_dummies", sp.sin(d1) * d2 + d1 - d2), ("dummy_and_symbol", d1 * 2 + sp.Symbol("_t")), ("one_dummy", d1 ** 2 + X[0])):
+        ctx.tally("sympy_to_casadi:dummy_symbols")
+        try:
+            with time_limit(20.0):
+                res, tab = stc(e)
+        except Exception:
+            ctx.count("s2c_dummy_rejected")
+            continue
+        res = ca.SX(res)
+        nvars = len(ca.symvar(res))
+        want = len(e.free_symbols)
+        ctx.check("sympy_to_casadi_symbol_table", "distinct_symbols_stay_distinct", nvars == want and len(tab) == want,
+                  {"expr": str(e), "kind": dname, "free_symbols": want, "casadi_variables": nvars, "table": str(tab)})
     # user-supplied function maps with more than one argument (the callable receives every argument)
     k2, k3 = sp.Function("k2"), sp.Function("k3")
     multi = {
